@@ -249,14 +249,13 @@ func sessionHandler(config Config) func(operations.SessionParams, interface{}) m
 		}
 
 		verifhook.Point("session.beforeDenyCheck", claims.BookingID)
-		if config.DenyStore.IsDenied(claims.BookingID) {
+		// track bookingIDs for which we have received connection requests, unless denied
+		// (one atomic step, so that a concurrent deny cannot be erased by the tracking)
+		if !config.DenyStore.AllowIfNotDenied(claims.BookingID, claims.ExpiresAt.Unix()) {
 			c := "400"
 			m := "bookingID has been deny-listed, probably because the session was cancelled"
 			return operations.NewSessionBadRequest().WithPayload(&models.Error{Code: &c, Message: &m})
 		}
-		verifhook.Point("session.afterDenyCheck", claims.BookingID)
-		// track bookingIDs for which we have received connection requests
-		config.DenyStore.Allow(claims.BookingID, claims.ExpiresAt.Unix())
 		verifhook.Point("session.afterAllow", claims.BookingID)
 
 		// TODO - have the scopes been checked already?
